@@ -85,7 +85,6 @@ package funnel
 
 // ---- Batch: structural invariant (lengths of the parallel slices) -----------
 
-//verif:def sameWindow(s, t, from, to) = base(s) == base(t) && off(s) == off(t) + from && len(s) == to - from
 //verif:def BLens(b) = len(b.records) == len(b.recordStatuses) && len(b.records) == len(b.positions) && (isnil(b.runs) || len(b.runs) == len(b.records)) && 0 <= b.filterCount && b.filterCount <= len(b.records)
 
 // ---- DestinationTask (C01, C09) ---------------------------------------------
